@@ -591,9 +591,13 @@ func loRequire(L *LState) int {
 		L.Push(lv)
 		return 1
 	}
-	loaders, ok := L.GetField(L.Get(RegistryIndex), "_LOADERS").(*LTable)
-	if !ok {
-		L.RaiseError("package.loaders must be a table")
+	// package.loaders is read at every call, as in Lua 5.1: a script may replace the array
+	var loaders *LTable
+	if pkg := loPackageTable(L); pkg != nil {
+		loaders, _ = L.GetField(pkg, "loaders").(*LTable)
+	}
+	if loaders == nil {
+		L.RaiseError("'package.loaders' must be a table")
 	}
 	messages := []string{}
 	var modasfunc LValue
